@@ -83,8 +83,14 @@ def obs(field, out_dir, build_dir, cfg):
     if field == "glyphmap_generator":
         return g0
     if field == "transform":
-        glyf = font["glyf"]
-        pic, _ = picture.colr_picture(font, g0)
+        if "COLR" in font:
+            pic, _ = picture.colr_picture(font, g0)
+        else:  # OT-SVG: the glyph's group in its document
+            from harness.c02 import svg_docs
+
+            gid = font.getGlyphID(g0)
+            doc = [d_ for d_ in svg_docs(font) if d_[1] <= gid <= d_[2]][0]
+            pic, _ = picture.otsvg_picture(doc[0], gid)
         x0, y0, x1, y1 = picture.polys_bbox([p for it, _ in picture.flatten(pic) for p in it[1]])
         return (round(x0), round(y0), round(x1), round(y1))
     if field == "reuse_tolerance":
@@ -258,6 +264,11 @@ def main(argv):
                 jobs.append((field, mode, base, None, v2, e2))
             else:
                 jobs.append((field, mode, base, v1, v2, e2))  # flag wins
+        if field == "transform":
+            # the user transform must reach OT-SVG glyph placement too (a horizontal shift: the vertical case is known finding F6)
+            for fmt_ in ("picosvg", "untouchedsvg"):
+                jobs.append((field, "file", {"color_format": fmt_}, "translate(100, 0)", None, lambda b: abs(b[0] - 200) <= 1))
+                jobs.append((field, "flag", {"color_format": fmt_}, None, "translate(100, 0)", lambda b: abs(b[0] - 200) <= 1))
         if len(vals) > 2:
             for v, e in vals[2:]:
                 jobs.append((field, "flag", base, None, v, e))
